@@ -14,8 +14,9 @@ package react
 //@   props C18
 //@   requires input != nil
 //@   modifies nothing()
-//@   ensures[none_configured] len(toolReturnDirectly) == 0 ==> result == ""
-//@   ensures[first_direct_tool] @C18 len(toolReturnDirectly) > 0 ==> (exists(i int :: 0 <= i && i < len(input.ToolCalls) && in(input.ToolCalls[i].Function.Name, toolReturnDirectly) && result == input.ToolCalls[i].ID && forall(j int :: 0 <= j && j < i ==> !in(input.ToolCalls[j].Function.Name, toolReturnDirectly)))) || (result == "" && forall(j int :: 0 <= j && j < len(input.ToolCalls) ==> !in(input.ToolCalls[j].Function.Name, toolReturnDirectly)))
+//@   ensures[none_configured] len(toolReturnDirectly) == 0 ==> result0 == "" && !result1
+//@   ensures[first_direct_tool] @C18 len(toolReturnDirectly) > 0 ==> (exists(i int :: 0 <= i && i < len(input.ToolCalls) && in(input.ToolCalls[i].Function.Name, toolReturnDirectly) && result1 && result0 == input.ToolCalls[i].ID && forall(j int :: 0 <= j && j < i ==> !in(input.ToolCalls[j].Function.Name, toolReturnDirectly)))) || (result0 == "" && !result1 && forall(j int :: 0 <= j && j < len(input.ToolCalls) ==> !in(input.ToolCalls[j].Function.Name, toolReturnDirectly)))
+//@   ensures[found_iff_called] @C18 len(toolReturnDirectly) > 0 ==> result1 == (exists(i int :: 0 <= i && i < len(input.ToolCalls) && in(input.ToolCalls[i].Function.Name, toolReturnDirectly)))
 //@   loop 1:
 //@     invariant[none_so_far] forall(j int :: 0 <= j && j < $i ==> !in(input.ToolCalls[j].Function.Name, toolReturnDirectly))
 
@@ -56,10 +57,16 @@ package react
 //@   ensures[model_sees_whole_history] @C18 messageModifier == nil ==> result1 == nil && len(result0) == len(state.Messages) && forall(i int :: 0 <= i && i < len(result0) ==> result0[i] == state.Messages[i])
 //@   at call messageModifier: assert[modifier_gets_a_copy] @C18 fresh(arg1) && len(arg1) == len(state.Messages) && forall(i int :: 0 <= i && i < len(arg1) ==> arg1[i] == state.Messages[i])
 
+//@ spec callsDirectTool(input *schema.Message, direct map[string]struct{}) bool = exists(i int :: 0 <= i && i < len(input.ToolCalls) && in(input.ToolCalls[i].Function.Name, direct))
+//@ spec directReturnPending(s *state) bool = s.ReturnDirectly
+
 //@ func NewAgent$3
 //@   props C18
 //@   requires state != nil && input != nil && config != nil
-//@   modifies state.Messages, elems(state.Messages), state.ReturnDirectlyToolCallID, fresh()
+//@   ensures[a_return_directly_call_is_remembered] @C18 len(config.ToolReturnDirectly) > 0 ==> callsDirectTool(input, config.ToolReturnDirectly) == directReturnPending(state)
+//@   ensures[nothing_pending_without_direct_tools] @C18 len(config.ToolReturnDirectly) == 0 ==> !directReturnPending(state)
+//@   note the branch after the tools node reads directReturnPending(state) to decide between returning the tool's result and calling the model again
+//@   modifies state.Messages, elems(state.Messages), state.ReturnDirectlyToolCallID, state.ReturnDirectly, fresh()
 //@   ensures[assistant_message_recorded] @C18 len(state.Messages) == old(len(state.Messages)) + 1 && state.Messages[old(len(state.Messages))] == input && forall(i int :: 0 <= i && i < old(len(state.Messages)) ==> state.Messages[i] == old(state.Messages[i]))
 //@   ensures[passes_input] result0 == input && result1 == nil
 
@@ -74,6 +81,13 @@ package react
 //@   after call toolCallChecker: ghost chkErr = result1
 //@   ensures[tools_iff_tool_call] @C18 chkErr == nil ==> err == nil && endNode == (isCall ? nodeKeyTools : compose.END)
 //@   ensures[error_passed] @C18 chkErr != nil ==> err == chkErr && endNode == ""
+
+//@ func buildReturnDirectly$5
+//@   props C18
+//@   requires state != nil
+//@   modifies captured(endNode)
+//@   ensures[direct_return_exactly_when_pending] @C18 endNode == (directReturnPending(state) ? nodeKeyDirectReturn : nodeKeyModel) && result == nil
+//@   note the branch after the tools node: a remembered return-directly call leads to the direct-return node, anything else back to the model
 
 //@ func buildReturnDirectly$2
 //@   props C18 C09
